@@ -1097,7 +1097,7 @@ theorem binned_local (b : Nat) (hb : 0 < b) (sizes : List Nat) (pts : List (Nat 
     have hlen : (nBins b sizes).length = sizes.length := by simp [nBins]
     refine ⟨by rw [hlen]; exact h1, ?_, ?_⟩
     · exact Nat.lt_of_lt_of_le (Nat.lt_succ_self _) this
-    · exact this
+    · exact ⟨this, Nat.le_succ _⟩
   obtain ⟨hcl, _⟩ := cover_local (nBins b sizes) ivs hvalid
   have hg : pileupGlobal (nBins b sizes) ivs = some ((List.range (total (nBins b sizes))).map
       (fun g => (pts.filter (fun x => binIndex b sizes x.1 x.2 == g)).length)) := by
